@@ -29,7 +29,7 @@ for pid in props:
 na = [{"property_id": p, "reason": PENDING_REASON.get(p, "check not built yet in this round; see DESIGN.md section 5 for the planned model and theorems")} for p in props if p not in CHECKS]
 man = {
     "version": 1,
-    "setup_cmd": "/venv/bin/python tools/translate_all.py && cd lean && lake build FordModel driver",
+    "setup_cmd": "tools/setup.sh",
     "hooks": {
         "guard": "FORD_VERIF",
         "enable": "no source hooks are needed: the harness imports /repo's ford in-process and observes it through wrappers installed in the harness process",
